@@ -239,12 +239,15 @@ func (d *Double) TTL(conn *redis.Conn, key string) (*redis.Message, error) {
 	return d.record(conn, "TTL", q(key))
 }
 func (d *Double) Scan(conn *redis.Conn, cursor int, opt redis.ScanOption) (*redis.Message, error) {
-	pat := "<nil>"
-	if opt.MatchPattern != nil {
-		pat = opt.MatchPattern.String()
+	// the compiled pattern's text is implementation-specific; its behaviour on the probe keys is not
+	bits := make([]byte, len(ScanProbes))
+	for i, k := range ScanProbes {
+		bits[i] = '0'
+		if opt.MatchPattern != nil && opt.MatchPattern.MatchString(k) {
+			bits[i] = '1'
+		}
 	}
-	_ = pat // the compiled pattern's text is implementation-specific; not part of the signature
-	return d.record(conn, "Scan", fmt.Sprintf("cursor=%d count=%d", cursor, opt.Count))
+	return d.record(conn, "Scan", fmt.Sprintf("cursor=%d count=%d match=%s", cursor, opt.Count, bits))
 }
 func (d *Double) Set(conn *redis.Conn, key string, val string, opt redis.SetOption) (*redis.Message, error) {
 	return d.record(conn, "Set", SigSet(key, val, opt))
